@@ -221,7 +221,7 @@ fn run_scenario(sc: &Scenario, lines: &mut Vec<(String, String)>, rep: &mut Repo
                     let rp = if n <= 4096 && (8..=17).contains(&tb) { "1" } else { "x" };
                     let rd = if n <= 400 && bits == 0 { "1" } else { "x" };
                     lines.push((format!("{} {}", req, o.dec),
-                        format!("ok {} {} {} rp={} rd={}", o.ix, fnv_bytes(&o.storage[..nb]), o.storage[o.ix >> 3], rp, rd)));
+                        format!("ok {} {} {} rp={} cc={} rd={}", o.ix, fnv_bytes(&o.storage[..nb]), o.storage[o.ix >> 3], rp, rp, rd)));
                     for (ii, bs, sc_, cmds, lits) in &o.q1_events {
                         rep.count(if *sc_ { "q1.block.compressed" } else { "q1.block.uncompressed" });
                         if *sc_ && cmds.iter().any(|c| (c & 0xff) >= 24 && (c & 0xff) < 64) { any_copy = true; rep.count("q1.block.with_copy"); }
@@ -233,11 +233,17 @@ fn run_scenario(sc: &Scenario, lines: &mut Vec<(String, String)>, rep: &mut Repo
                             rep.count("q1.replay_lines");
                         }
                     }
+                    // the size fallback was taken iff the output is ONE stored meta-block although the block
+                    // loop wrote something else (a compressed block, or more than one block)
                     let compressed_any = o.q1_events.iter().any(|e| e.2);
                     let hdr = 1 + 2 + (if n <= 1 << 16 { 16 } else if n <= 1 << 20 { 20 } else { 24 }) + 1;
                     let unc_ix = ((bits + hdr + 7) & !7) + 8 * n;
-                    let body_ix = if last { o.ix - 8 } else { o.ix }; // approximate: detects the fallback only for !last
-                    if compressed_any && !last && body_ix == unc_ix { rep.count("q1.rewind_fallback"); }
+                    let want = if last { (unc_ix + 2 + 7) & !7 } else { unc_ix };
+                    if n > 0 && (compressed_any || o.q1_events.len() > 1) && o.ix == want {
+                        rep.count("q1.rewind_fallback");
+                        if bits % 8 == 0 { rep.count("q1.rewind_fallback.aligned_start"); }
+                        if o.q1_events.len() > 1 { rep.count("q1.rewind_fallback.multi_block"); }
+                    }
                 } else {
                     rep.add("q0.merges", o.q0_merges as u64);
                     rep.add("q0.uncompressed_fallbacks", o.q0_unc as u64);
@@ -408,6 +414,12 @@ fn scenarios(seed: u64, thorough: bool) -> Vec<Scenario> {
             for cls in classes {
                 v.push(Scenario { q, forced_bits: 0, stale: 0x55, is_last: i % 2 == 0, pieces: vec![Piece { cls, seed: rng.below(1 << 16), size: n }] });
             }
+        }
+        // byte-aligned start (behind a stored block) + a multi-block fragment that ends in the size fallback:
+        // the rewind position is aligned and the first byte of the abandoned attempt differs from the new header
+        for (a, b) in [(300usize, 131073usize), (1000, 200000), (40, 262145), (300, 131072 + 65536)] {
+            v.push(Scenario { q, forced_bits: 0, stale: 0xff, is_last: true, pieces: vec![
+                Piece { cls: 0, seed: rng.below(1 << 16), size: a }, Piece { cls: 0, seed: rng.below(1 << 16), size: b }] });
         }
         // multi-call streams (carry byte, cmd state of q0 carried)
         let nm = if thorough { 200 } else { 40 };
